@@ -181,7 +181,14 @@ def post(g):
                 attrs.append([["Q", "prov", I.PROV.uri, a], v])
         g.emit(["NewRecord", c, kind, ident, attrs])
     if rng.random() < 0.5:
-        g.emit(["Unified", str(rng.randrange(len(g.im.docs)))])
+        di = str(rng.randrange(len(g.im.docs)))
+        g.emit(["Unified", di])
+        if rng.random() < 0.6:
+            # a history on one object: unify, change records in place, unify again (the second result must reflect
+            # the records as they are now)
+            for _ in range(rng.choice([1, 2, 3])):
+                rng.choice([g.op_add_attrs, g.op_add_attrs, g.op_add_type, g.op_set_time])()
+            g.emit(["Unified", di])
 
 
 def nontrivial(ops):
@@ -212,6 +219,27 @@ def fixed_programs():
                   ["NewRecord", c, "Entity", ["S", "ex:e"], [[["S", "prov:type"], vals[a]]]],
                   ["Unified", "0"]]
             out.append(p)
+    # a history on one object: unified(), then a record of a merged group (or a singleton) is changed in place
+    # (add_attributes, add_asserted_type, set_time — none of them goes through _add_record), then unified() again:
+    # a new attribute must be in the union, a new conflict must raise
+    for in_bundle in (False, True):
+        for which in ("0", "1", "2"):
+            for change in (["AddAttrs", None, [[["S", "ex:late"], ["int", "1"]]]],
+                           ["AddType", None, ["qn", "ex", EXU, "Late"]],
+                           ["AddAttrs", None, [[["Q", "prov", I.PROV.uri, "startTime"], ["time", "2001", "1", "1", "0", "0", "0", "0", "none"]]]],
+                           ["SetTime", None, ["time", "2002", "2", "2", "0", "0", "0", "0", "none"], "none"]):
+                p = [["NewDoc"], ["AddNs", ["d", "0"], "ex", EXU]]
+                c = ["d", "0"]
+                if in_bundle:
+                    p.append(["NewBundle", "0", ["S", "ex:b"]])
+                    c = ["b", "0", "0"]
+                ch = list(change)
+                ch[1] = ["r", c, which]
+                p += [["NewRecord", c, "Activity", ["S", "ex:a"], [[["S", "ex:k"], ["int", "1"]]]],
+                      ["NewRecord", c, "Activity", ["S", "ex:a"], [[["Q", "prov", I.PROV.uri, "startTime"], ["time", "2000", "1", "1", "0", "0", "0", "0", "none"]]]],
+                      ["NewRecord", c, "Activity", ["S", "ex:single"], []],
+                      ["Unified", "0"], ch, ["Unified", "0"], ["ToGraph", "0"], ch, ["Unified", "0"]]
+                out.append(p)
     return out
 
 
